@@ -400,3 +400,7 @@ def run(ctx):
     scope.rule_pairing(ctx, "R4.6")
     # "repeating any call yields identical results": no answer of the resolver is cached under a key that omits the scope
     scope.rule_memo_scope_free(ctx, "R4.6m")
+    # R4.8: is_valid / iter_errors / validate() on an existing validator agree with jsonschema.validate (which builds a fresh one)
+    # only if nothing done elsewhere -- constructing another validator or resolver, with whatever arguments -- reaches into its resolver
+    from .c18 import rule_per_validator_resolver
+    rule_per_validator_resolver(ctx, "R4.8")
